@@ -324,6 +324,14 @@ def microStep (c : Cfg) (s : State) (t : Nat) (ch : Nat) : Option State :=
           if ch = 0 then
             some (doStore s t th o (wrapSub c.ceil pc.old k) ⟨pc.k, norm c.ceil rest pc.old, pc.old⟩)
           else none
+      | .simple (.rmwSub n o) :: rest =>
+          if ch = 0 then
+            some (doRmw s t th o (wrapSub c.ceil s.last.val n) ⟨pc.k, norm c.ceil rest pc.old, pc.old⟩)
+          else none
+      | .simple (.rmwAdd n o) :: rest =>
+          if ch = 0 then
+            some (doRmw s t th o (wrapAdd c.ceil s.last.val n) ⟨pc.k, norm c.ceil rest pc.old, pc.old⟩)
+          else none
       | .branch .. :: _ =>
           if ch = 0 then
             some { s with thr := s.thr.set t { th with pc := some ⟨pc.k, norm c.ceil pc.code pc.old, pc.old⟩ } }
@@ -370,8 +378,8 @@ Bool-valued so that they can be decided on the generated description (`Props/C04
 listed by the driver (`obligations`).  The theorems of `Props/C04.lean` take them as
 hypotheses about an arbitrary `Proto`. -/
 
-/-- The arm of a branch contains no plain `store`. -/
-def noStoreArm (arm : List Simple) : Bool := !arm.any Simple.isStore
+/-- The arm of a branch consists of fences only (it does not touch the counter). -/
+def fenceArm (arm : List Simple) : Bool := arm.all Simple.isFence
 
 /-- The arm of a branch contains an acquire fence. -/
 def acqFenceArm (arm : List Simple) : Bool :=
@@ -381,7 +389,7 @@ def acqFenceArm (arm : List Simple) : Bool :=
 in particular the decrement is an atomic read-modify-write. -/
 def decrShape (p : Proto) : Bool :=
   match p.decr with
-  | [.rmwSub 1 _, .branch .eq (.lit 0) thn .overflow els .done] => noStoreArm thn && noStoreArm els
+  | [.rmwSub 1 _, .branch .eq (.lit 0) thn .overflow els .done] => fenceArm thn && fenceArm els
   | _ => false
 
 /-- The decrement has release semantics. -/
@@ -412,7 +420,7 @@ def incrBoundOk (ceil : Nat) (p : Proto) : Bool :=
 /-- `is_unique` is `if load(_) == 0 { fences; true } else { fences; false }`. -/
 def uniqShape (p : Proto) : Bool :=
   match p.isUnique with
-  | [.load _, .branch .eq (.lit 0) thn (.bool true) els (.bool false)] => noStoreArm thn && noStoreArm els
+  | [.load _, .branch .eq (.lit 0) thn (.bool true) els (.bool false)] => fenceArm thn && fenceArm els
   | _ => false
 
 /-- The `true` branch of `is_unique` acquires (acquire fence, or the load itself is acquire). -/
